@@ -74,16 +74,8 @@ func (s *c20zgSent) String() string {
 		return s.note
 	}
 	if s.err != nil {
-		// lnd's errors spew the whole message
-		msg := s.err.Error()
-		if i := strings.Index(msg, "(*lnwire."); i > 0 {
-			msg = msg[:i] + "..."
-		}
-		if len(msg) > 160 {
-			msg = msg[:160] + "..."
-		}
 		c := *s
-		c.err = fmt.Errorf("%s", msg)
+		c.err = c20zgShortErr(s.err)
 		s = &c
 	}
 	o := [...]string{"result", "parked (no result)", "timeout"}[s.out]
@@ -102,6 +94,22 @@ func (s *c20zgSent) String() string {
 			"(ts=%d) to a %s channel -> %s err=%v", s.m.dir, who, age,
 			s.m.ts, s.phase, o, s.err)
 	}
+}
+
+// c20zgShortErr cuts lnd's error texts (they spew the whole message).
+func c20zgShortErr(err error) error {
+	if err == nil {
+		return nil
+	}
+	msg := err.Error()
+	if i := strings.Index(msg, "(*lnwire."); i > 0 {
+		msg = msg[:i] + "..."
+	}
+	if len(msg) > 160 {
+		msg = msg[:160] + "..."
+	}
+
+	return fmt.Errorf("%s", msg)
 }
 
 var c20zgBlank [33]byte
@@ -356,10 +364,10 @@ func TestVerifC20ZombieGossip(t *testing.T) {
 			if timedOut {
 				return false
 			}
-			if s.out != c20Done || s.err != nil {
+			if _, has := rg.info(scid); !has {
 				fail("%s: authentic announcement of a channel that "+
-					"is neither known nor a zombie was not applied",
-					when)
+					"is neither known nor a zombie was not applied "+
+					"(%v)", when, c20zgShortErr(s.err))
 			}
 			applied[c.ann.key] = true
 			for _, pk := range parked {
@@ -593,9 +601,8 @@ func TestVerifC20ZombieGossip(t *testing.T) {
 								"zombie horizon removed the " +
 								"channel from the zombie index")
 						}
-						if s.out != c20Done {
-							fail("stale update for a zombie " +
-								"channel got no result")
+						if s.out == c20Stashed {
+							parked = append(parked, s)
 						}
 						labels["zombie_cu_stale_ignored"] = true
 
@@ -623,7 +630,7 @@ func TestVerifC20ZombieGossip(t *testing.T) {
 							"(%s, %s)) allows to resurrect the "+
 							"channel, did not resurrect it: %v",
 							d, d+1, keyName(zk[0]),
-							keyName(zk[1]), s.err)
+							keyName(zk[1]), c20zgShortErr(s.err))
 
 					case !z:
 						// resurrected by the right node
@@ -637,10 +644,13 @@ func TestVerifC20ZombieGossip(t *testing.T) {
 							d+1)] = true
 
 					default:
-						if s.out != c20Done || s.err == nil {
-							fail("rejected update for a zombie "+
-								"channel: out=%v err=%v", s.out,
-								s.err)
+						// Stays a zombie, as it must. (Whether
+						// lnd answers with an error or parks
+						// the update is not part of the
+						// statement; a parked one is followed
+						// through a later replay.)
+						if s.out == c20Stashed {
+							parked = append(parked, s)
 						}
 						nontrivial = true
 						switch {
@@ -678,7 +688,7 @@ func TestVerifC20ZombieGossip(t *testing.T) {
 						if s.out != c20Done || s.err != nil {
 							fail("authentic newer update for "+
 								"the re-announced channel not "+
-								"applied: %v", s.err)
+								"applied: %v", c20zgShortErr(s.err))
 						}
 						pol[d] = m
 						applied[m.key] = true
